@@ -196,6 +196,21 @@ def print_assumptions(module, theorems, timeout=300):
     return res, out
 
 
+def coqchk(module, timeout=2400):
+    """independent re-check of the compiled property module and everything it depends on; returns
+    (ok, summary) where ok means: exit 0, 'Axioms: <none>', nothing relying on type-in-type / unsafe
+    fixpoints / assumed positivity"""
+    with BuildLock():
+        rc, out = run(["coqchk", "-silent", "-o", "-R", "model", "LV", "-R", "gen", "LV", "-R", "proofs", "LV",
+                       "-R", "props", "LV", "LV." + module], cwd=COQ, timeout=timeout)
+    tail = out[out.find("CONTEXT SUMMARY"):] if "CONTEXT SUMMARY" in out else out[-1500:]
+    ok = (rc == 0 and re.search(r"Axioms:\s*<none>", tail) is not None
+          and re.search(r"type-in-type:\s*<none>", tail) is not None
+          and re.search(r"unsafe \(co\)fixpoints:\s*<none>", tail) is not None
+          and re.search(r"positivity is assumed:\s*<none>", tail) is not None)
+    return ok, " ".join(tail.split())[:600]
+
+
 def dependency_closure(targets):
     """the .v files the given .vo targets depend on (from coq_makefile's .Makefile.d); None if unknown"""
     depfile = os.path.join(COQ, ".Makefile.d")
